@@ -80,7 +80,7 @@ func blockHasCall(b *ssa.BasicBlock, pred func(*ssa.Call) bool) bool {
 
 type distAnchors struct {
 	start, prepare, prepMain, sendStates, findAcc, remSum, calcPct *ssa.Function
-	ok                                                               bool
+	ok                                                             bool
 }
 
 func distributorAnchors(w *World, r *Report) distAnchors {
